@@ -114,6 +114,7 @@ CHECKS['C09'] = dict(
         dict(name='separators-16bit', spec=_TBL, args=['sep16']),
         dict(name='cadence', spec=_TBL, args=['cadence']),
         dict(name='length', spec=_TBL, args=['length']),
+        dict(name='pool', spec=_TBL, args=['pool']),      # pooled writers: the index entry of a block is built while later adds are already running (seed R7-C09)
         dict(name='struct', spec=_TBL, args=['struct']),
         dict(name='cross4g', spec=H('h_table.c', 'fast'), args=['cross4g'], shards=1, tiers=['thorough']),
     ],
